@@ -132,6 +132,7 @@ void setup_world(const Json::Value& scn, const std::string& tag) {
       wf.err = errno_of(f.get("errno", "EIO").asString());
       wf.remaining = f.get("count", -1).asInt();
       wf.shortw = f.get("short", false).asBool();
+      wf.block = f.get("block", false).asBool();
       g.write_faults.push_back(wf);
     }
   }
